@@ -41,6 +41,7 @@ type childViolation struct {
 
 // rec is the child side recorder (same shape as core.Ctx, serialised at the end).
 type rec struct {
+	total int
 	res   childResult
 	nt    map[string]struct{}
 	viols map[string]*childViolation
@@ -60,7 +61,18 @@ func (r *rec) Sample(v interface{}) {
 	}
 }
 
+// giveUp: the verdict of this unit is decided many times over; a broken tree can make the remaining work explode
+// (rows piling up in a batch that is never reset), so the unit stops early instead of running into the watchdog.
+func (r *rec) giveUp() bool {
+	if r.total > 3000 {
+		r.res.Counters["units_stopped_early_after_3000_violations"] = 1
+		return true
+	}
+	return false
+}
+
 func (r *rec) Violation(class, msg string, witness interface{}) {
+	r.total++
 	if v, ok := r.viols[class]; ok {
 		v.Count++
 		return
